@@ -670,13 +670,25 @@ pub fn text_libfunc_name(kind: u64, k: u64) -> String {
     }
 }
 pub fn text_func_name(kind: u64, k: u64) -> String {
-    match kind % 7 {
+    // the bracketed parts are re-joined by the parser without spaces, so only space-free bodies are
+    // fix-points of print . parse; the compiler's own spellings (with spaces) are covered by the
+    // freshly compiled corpus, where the comparison is made after one parse
+    match kind % 14 {
         0 => format!("f{k}"),
         1 => format!("ns::f{k}"),
         2 => format!("ns::f{k}::<core::integer::u8, core::integer::u8Drop>"),
         3 => format!("ns::f{k}[expr12]"),
         4 => format!("ns::f{k}{{closure.0}}"),
         5 => format!("ns::f{k}[expr3]{{closure.1}}"),
+        // specialization on constants: enum variants / paths, method calls, struct literals, arrays,
+        // snapshots, negative numbers, nested brackets
+        6 => format!("ns::bar{k}{{bool::False({{}}),2.into_box(),}}"),
+        7 => format!("ns::g{k}::<core::felt252, core::felt252Drop>[141-345]{{0,@array![1,2,3,4],@{k},}}"),
+        8 => format!("ns::h{k}{{NotSpecialized,core::option::Option::<core::integer::u8>::Some(5),S{{a:1,b:-2}},}}"),
+        9 => format!("ns::i{k}::<T>{{E::V({{}}),2.into_box(),S{{a:1}},}}"),
+        10 => format!("ns::j{k}[0-{k}]{{{{{{x::y::<z>}}}},[a,[b,c]],(d,e),}}"),
+        11 => format!("ns::k{k}{{closure@/src/lib.cairo:3:29:3:31}}"),
+        12 => format!("ns::l{k}{{a\\b/c.d-e@f:g::h<i>j!}}"),
         _ => format!("m{k}::{}", "c".repeat(150)),
     }
 }
